@@ -6,7 +6,7 @@
    append_list_element and wrap_type; Create.create_set adds set_value's
    _apply_change (Mutate.update_node, see C03). *)
 From Coq Require Import List ZArith NArith Bool String.
-From YP Require Import Outcome PyStr PyVal Doc Searches Mutate Create C09create C09createP.
+From YP Require Import Outcome PyStr PyVal Doc Searches Mutate Create C04spec C09create C09createP C09doc.
 Import ListNotations.
 Open Scope string_scope.
 Open Scope list_scope.
@@ -38,6 +38,57 @@ Theorem C09_create_last_key : forall lit k ko i kvs pc next vo value g,
 Proof. exact grow_map_last_key. Qed.
 Print Assumptions C09_create_last_key.
 
+(* ======== document level: ALL documents (every container object held once),
+   ALL straight key/index paths, existing prefix and missing tail of any length ======== *)
+
+(* FRAME.  Whatever the optional query created, the old document is embedded in
+   the new one: every node that existed is still there, at its place, with its
+   identity, anchor, tag and scalar value; containers only gained children after
+   the ones they had.  No guard: it also holds when nothing is created and in the
+   situations of the known findings F10b / F25. *)
+Theorem C09_create_frame : forall lit segs value vo d d' pc next',
+  wf_doc d -> create_query lit segs value vo d = ROk (d', pc, next') -> embeds d d'.
+Proof. exact create_query_frame. Qed.
+Print Assumptions C09_create_frame.
+
+(* ... which means, location by location (Doc.lookup): *)
+Theorem C09_frame_lookup : forall l d d' n,
+  embeds d d' -> lookup d l = Some n ->
+  exists n', lookup d' l = Some n' /\ embeds n n' /\ node_info n' = node_info n /\ (is_leaf n = true -> n' = n).
+Proof.
+  intros l d d' n He Hl. destruct (embeds_lookup l d d' n He Hl) as [n' [A B]].
+  exists n'. destruct (embeds_info _ _ B). auto.
+Qed.
+Print Assumptions C09_frame_lookup.
+
+(* RESOLVES.  When something is to be created (guard [creates]: the path is not
+   complete, its existing prefix does not run into a null - F10b - and the tail
+   does not start below a set - F25), walking the path's keys and indexes in the
+   NEW document reaches the node Nodes.wrap_type built from the supplied value. *)
+Theorem C09_create_resolves_partial : forall lit segs value vo d d' pc next',
+  wf_doc d -> creates d segs = true ->
+  create_query lit segs value vo d = ROk (d', pc, next') ->
+  exists w fresh vo', resolve d' segs = Some w /\ wrap_type lit value fresh vo' = ROk w.
+Proof. intros. eapply create_query_doc; eauto. Qed.
+Print Assumptions C09_create_resolves_partial.
+
+(* [resolve] is Doc.lookup along the refs the segments denote *)
+Theorem C09_resolve_is_lookup : forall segs n w,
+  resolve n segs = Some w -> exists l, List.length l = List.length segs /\ lookup n l = Some w.
+Proof. exact resolve_lookup. Qed.
+Print Assumptions C09_resolve_is_lookup.
+
+(* PADDING exactly up to the requested index, along the whole path: every
+   sequence met on the path in the new document in which the requested element
+   did not exist before (the grown one, and every new one) has exactly
+   index + 1 elements. *)
+Theorem C09_create_pads_document_partial : forall lit segs value vo d d' pc next',
+  wf_doc d -> creates d segs = true ->
+  create_query lit segs value vo d = ROk (d', pc, next') ->
+  padded_ok (Some d) d' segs = true.
+Proof. intros. eapply create_query_doc; eauto. Qed.
+Print Assumptions C09_create_pads_document_partial.
+
 (* ---- concrete runs ---- *)
 Definition pl (o : N) : info := mkinfo o None false None.
 Definition ct (o : N) : info := mkinfo o None true None.
@@ -55,6 +106,51 @@ Example C09_create_nonvacuous :
   | SFailed _ _ => False
   end.
 Proof. vm_compute. reflexivity. Qed.
+
+(* non-vacuity of the document-level theorems: {a: [1]}, a[3].x; a path of three missing segments on {} *)
+Example C09_document_nonvacuous :
+  wf_docb docA = true /\
+  creates docA [SKey "a" (Some 1%N); SIdx 3; SKey "x" None] = true /\
+  (match create_query no_lit [SKey "a" (Some 1%N); SIdx 3; SKey "x" None] (PStr "v") None docA with
+   | ROk (d', _, _) =>
+       option_map erase (resolve d' [SKey "a" (Some 1%N); SIdx 3; SKey "x" None]) = Some (DLeaf (PStr "v")) /\
+       padded_ok (Some docA) d' [SKey "a" (Some 1%N); SIdx 3; SKey "x" None] = true
+   | RErr _ => False
+   end) /\
+  creates (NMap (ct 0) []) [SKey "p" None; SKey "2" None; SIdx 1] = true /\
+  (match create_query no_lit [SKey "p" None; SKey "q" None; SIdx 1] (PInt 5) None (NMap (ct 0) []) with
+   | ROk (d', _, _) => erase d' = DMap [ (PStr "p", DMap [ (PStr "q", DSeq [DLeaf (PInt 5); DLeaf (PInt 5)]) ]) ]
+   | RErr _ => False
+   end).
+Proof. vm_compute. repeat split. Qed.
+
+(* without the guard RESOLVES is false - known finding F10b at the level of the optional query:
+   {a: null}, a.b.c: the null is yielded, nothing is created, a.b.c does not resolve *)
+Theorem C09_create_resolves_refuted : exists d segs value d' pc next',
+  wf_doc d /\ create_query no_lit segs value None d = ROk (d', pc, next') /\ resolve d' segs = None.
+Proof.
+  exists (NMap (ct 0) [ (sk 1 "a", NLeaf (pl 2) PNone) ]), [SKey "a" (Some 1%N); SKey "b" None; SKey "c" None], (PStr "v").
+  eexists. eexists. eexists. split; [|split].
+  - apply C04delete.wf_docb_sound. vm_compute. reflexivity.
+  - vm_compute. reflexivity.
+  - vm_compute. reflexivity.
+Qed.
+Print Assumptions C09_create_resolves_refuted.
+
+(* ... and known finding F25 at that level: {s: !!set {x}}, s.y := v - the member y is added (frame holds),
+   but a set member IS its value: the path resolves to "y", never to the supplied "v" *)
+Theorem C09_create_resolves_set_refuted : exists d segs d' pc next' n,
+  wf_doc d /\ create_query no_lit segs (PStr "v") None d = ROk (d', pc, next') /\
+  resolve d' segs = Some n /\ leaf_val n = Some (PStr "y").
+Proof.
+  exists (NMap (ct 0) [ (sk 1 "s", NSet (ct 2) [sk 3 "x"]) ]), [SKey "s" (Some 1%N); SKey "y" None].
+  eexists. eexists. eexists. eexists. split; [|split; [|split]].
+  - apply C04delete.wf_docb_sound. vm_compute. reflexivity.
+  - vm_compute. reflexivity.
+  - vm_compute. reflexivity.
+  - reflexivity.
+Qed.
+Print Assumptions C09_create_resolves_set_refuted.
 
 (* known finding F10b: {a: null} set a.b.c := v overwrites the null, a.b.c does not exist afterwards *)
 Definition docN : node := NMap (ct 0) [ (sk 1 "a", NLeaf (pl 2) PNone) ].
